@@ -28,11 +28,7 @@ func (TrueSet) IsTrue() bool {
 }
 
 func (t TrueSet) Less(v Value) bool {
-	switch v.(type) {
-	case TrueSet, Number, Tuple, EmptySet:
-		return false
-	}
-	return true
+	return t.Kind() < v.Kind()
 }
 
 func (t TrueSet) Negate() Value {
